@@ -343,3 +343,100 @@ package avltree
 //@   ensures [C11 C12] loaded-all: jobj_kind(bytes, argof(tree.Comparator, 0), tree.Root.Value) == 3 ==> (forall k like argof(tree.Comparator, 0) :: jobj_has(bytes, k, tree.Root.Value) ==> Has(tree, k))
 //@   ensures [C11 C12] loaded-only: jobj_kind(bytes, argof(tree.Comparator, 0), tree.Root.Value) == 3 ==> (forall i :: 0 <= i && i < tree.size ==> jobj_has(bytes, KeyAt(tree, i), tree.Root.Value) && ValAt(tree, i) == jobj_val(bytes, KeyAt(tree, i), tree.Root.Value))
 //@   ensures [C12] null: jobj_kind(bytes, argof(tree.Comparator, 0), tree.Root.Value) == 2 ==> tree.size == 0
+
+// ---- rebalancing core (C07): rotations and the two fix-up steps, proved locally against the ghost height h ----
+
+//@ -- side index of a direction c in {-1, +1}
+//@ pred Side(c) := ite(c == 1, 1, 0)
+//@ pred Dir(c) := c == 1 || c == 0 - 1
+
+//@ -- rotate(c, s): the child r on side c of s becomes the subtree root, s its child on the other side; r's inner subtree
+//@ -- moves over to s. The slot that pointed to s is NOT updated (callers do that), balance factors are not touched.
+//@ func rotate
+//@   requires Dir(c) && s != nil && s.Children[Side(c)] != nil
+//@   requires s.Children[Side(c)] != s && s.Children[Side(c)].Children[1 - Side(c)] != s && s.Children[Side(c)].Children[1 - Side(c)] != s.Children[Side(c)]
+//@   modifies each x like s where x == s || x == old(s.Children[Side(c)]) || x == old(s.Children[Side(c)].Children[1 - Side(c)]) : x.Children, x.Parent
+//@   ensures [C07 C17] result == old(s.Children[Side(c)]) && result.Children[1 - Side(c)] == s && result.Children[Side(c)] == old(s.Children[Side(c)].Children[Side(c)])
+//@   ensures [C07] s.Children[Side(c)] == old(s.Children[Side(c)].Children[1 - Side(c)]) && s.Children[1 - Side(c)] == old(s.Children[1 - Side(c)])
+//@   ensures [C07] result.Parent == old(s.Parent) && s.Parent == result && (s.Children[Side(c)] != nil ==> s.Children[Side(c)].Parent == s)
+
+//@ -- local height facts: HOK(x) — x's ghost height and stored balance factor agree with its children's ghost heights
+//@ pred HOK(x) := x.h == 1 + max(Hc(x.Children[0]), Hc(x.Children[1])) && x.b == Hc(x.Children[1]) - Hc(x.Children[0])
+//@ pred Bal(x) := HOK(x) && 0 - 1 <= x.b && x.b <= 1
+//@ -- the nodes a rotation at s towards side c touches are pairwise distinct (a consequence of the tree shape at every call)
+//@ pred RotDistinct(c, s) := s.Children[Side(c)] != s && s.Children[1 - Side(c)] != s && s.Children[1 - Side(c)] != s.Children[Side(c)]
+//@     && s.Children[Side(c)].Children[0] != s && s.Children[Side(c)].Children[1] != s
+//@     && s.Children[Side(c)].Children[0] != s.Children[Side(c)] && s.Children[Side(c)].Children[1] != s.Children[Side(c)]
+
+//@ -- singlerot(c, s): s is two higher on side c and its child r there leans the same way (outer subtree one higher than the
+//@ -- inner, inner as high as s's other subtree): one rotation; both end up balanced with factor 0, and the subtree is one
+//@ -- lower than before the insertion/removal made it lopsided
+//@ func singlerot
+//@   requires Dir(c) && s != nil && s.Children[Side(c)] != nil && RotDistinct(c, s)
+//@   requires Hc(s.Children[1 - Side(c)]) == Hc(s.Children[Side(c)].Children[1 - Side(c)]) && Hc(s.Children[Side(c)].Children[Side(c)]) == Hc(s.Children[Side(c)].Children[1 - Side(c)]) + 1
+//@   modifies each x like s where x == s || x == old(s.Children[Side(c)]) || x == old(s.Children[Side(c)].Children[1 - Side(c)]) : x.Children, x.Parent, x.b, x.h
+//@   at exit: s0.h := 1 + max(Hc(s0.Children[0]), Hc(s0.Children[1]))
+//@   at exit: result.h := 1 + max(Hc(result.Children[0]), Hc(result.Children[1]))
+//@   ensures [C07 C17] result == old(s.Children[Side(c)]) && result.Children[1 - Side(c)] == s && result.Children[Side(c)] == old(s.Children[Side(c)].Children[Side(c)])
+//@   ensures [C07] s.Children[Side(c)] == old(s.Children[Side(c)].Children[1 - Side(c)]) && s.Children[1 - Side(c)] == old(s.Children[1 - Side(c)])
+//@   ensures [C07] result.Parent == old(s.Parent) && s.Parent == result && (s.Children[Side(c)] != nil ==> s.Children[Side(c)].Parent == s)
+//@   ensures [C07] balanced: Bal(s) && Bal(result) && s.b == 0 && result.b == 0 && result.h == old(Hc(s.Children[Side(c)].Children[Side(c)])) + 1
+
+//@ -- doublerot(c, s): s is two higher on side c but its child r there leans the other way: r's inner child p comes up
+//@ -- (rotate r away from c, then s towards c). With T1 = s's other subtree, T4 = r's outer subtree (both of height k) and
+//@ -- p of height k+1 with |p.b| <= 1, all three end up balanced, p with factor 0 and height k+2
+//@ pred DblDistinct0(c, s) := RotDistinct(c, s)
+//@ pred DblDistinct(c, s) := RotDistinct(c, s) && RotDistinct(0 - c, s.Children[Side(c)])
+//@     && s.Children[Side(c)].Children[1 - Side(c)].Children[0] != s && s.Children[Side(c)].Children[1 - Side(c)].Children[1] != s
+//@     && s.Children[Side(c)].Children[1 - Side(c)] != s.Children[1 - Side(c)]
+//@     && (s.Children[Side(c)].Children[1 - Side(c)].Children[0] == nil || s.Children[Side(c)].Children[1 - Side(c)].Children[0] != s.Children[Side(c)].Children[1 - Side(c)].Children[1])
+//@ func doublerot
+//@   requires Dir(c) && s != nil && s.Children[Side(c)] != nil && s.Children[Side(c)].Children[1 - Side(c)] != nil && DblDistinct(c, s)
+//@   requires Bal(s.Children[Side(c)].Children[1 - Side(c)])
+//@   requires Hc(s.Children[1 - Side(c)]) == Hc(s.Children[Side(c)].Children[Side(c)]) && Hc(s.Children[Side(c)].Children[1 - Side(c)]) == Hc(s.Children[1 - Side(c)]) + 1
+//@   modifies each x like s where x == s || x == old(s.Children[Side(c)]) || x == old(s.Children[Side(c)].Children[1 - Side(c)]) || x == old(s.Children[Side(c)].Children[1 - Side(c)].Children[0]) || x == old(s.Children[Side(c)].Children[1 - Side(c)].Children[1]) : x.Children, x.Parent, x.b, x.h
+//@   at exit: s.h := 1 + max(Hc(s.Children[0]), Hc(s.Children[1]))
+//@   at exit: r.h := 1 + max(Hc(r.Children[0]), Hc(r.Children[1]))
+//@   at exit: result.h := 1 + max(Hc(result.Children[0]), Hc(result.Children[1]))
+//@   ensures [C07 C17] result == old(s.Children[Side(c)].Children[1 - Side(c)]) && result.Children[1 - Side(c)] == s && result.Children[Side(c)] == old(s.Children[Side(c)])
+//@   ensures [C07] s.Children[1 - Side(c)] == old(s.Children[1 - Side(c)]) && s.Children[Side(c)] == old(s.Children[Side(c)].Children[1 - Side(c)].Children[1 - Side(c)])
+//@   ensures [C07] old(s.Children[Side(c)]).Children[Side(c)] == old(s.Children[Side(c)].Children[Side(c)]) && old(s.Children[Side(c)]).Children[1 - Side(c)] == old(s.Children[Side(c)].Children[1 - Side(c)].Children[Side(c)])
+//@   ensures [C07] result.Parent == old(s.Parent) && s.Parent == result && old(s.Children[Side(c)]).Parent == result
+//@   ensures [C07] (s.Children[Side(c)] != nil ==> s.Children[Side(c)].Parent == s) && (old(s.Children[Side(c)]).Children[1 - Side(c)] != nil ==> old(s.Children[Side(c)]).Children[1 - Side(c)].Parent == old(s.Children[Side(c)]))
+//@   ensures [C07] balanced: Bal(s) && Bal(old(s.Children[Side(c)])) && Bal(result) && result.b == 0 && result.h == old(Hc(s.Children[1 - Side(c)])) + 2
+
+//@ -- putFix(c, t): the subtree in slot t has root s whose child on side c has just grown by one; s's balance factor and ghost
+//@ -- height still describe the state before that. Afterwards the slot holds a balanced root; the result says whether the
+//@ -- subtree in the slot is one higher than before the insertion.
+//@ pred GrewStale(c, s) := 0 - 1 <= s.b && s.b <= 1 && s.h == 1 + max(Hc(s.Children[Side(c)]) - 1, Hc(s.Children[1 - Side(c)]))
+//@     && s.b == ite(c == 1, (Hc(s.Children[1]) - 1) - Hc(s.Children[0]), Hc(s.Children[1]) - (Hc(s.Children[0]) - 1))
+//@ func putFix
+//@   requires Dir(c) && deref(t) != nil && deref(t).Children[Side(c)] != nil && GrewStale(c, deref(t)) && Bal(deref(t).Children[Side(c)])
+//@   requires deref(t).b == c ==> deref(t).Children[Side(c)].b != 0 && DblDistinct0(c, deref(t))
+//@   requires deref(t).b == c && deref(t).Children[Side(c)].b != c ==> deref(t).Children[Side(c)].Children[1 - Side(c)] != nil && Bal(deref(t).Children[Side(c)].Children[1 - Side(c)]) && DblDistinct(c, deref(t))
+//@   modifies deref(t)
+//@   modifies each x like deref(t) where x == old(deref(t)) || x == old(deref(t).Children[Side(c)]) || x == old(deref(t).Children[Side(c)].Children[1 - Side(c)]) || x == old(deref(t).Children[Side(c)].Children[1 - Side(c)].Children[0]) || x == old(deref(t).Children[Side(c)].Children[1 - Side(c)].Children[1]) : x.Children, x.Parent, x.b, x.h
+//@   at exit: if old(deref(t).b) == 0 then old(deref(t)).h := old(deref(t).h) + 1
+//@   ensures [C07 C17] result == (old(deref(t).b) == 0)
+//@   ensures [C07] deref(t) != nil && Bal(deref(t)) && deref(t).h == old(deref(t).h) + ite(result, 1, 0)
+//@   ensures [C07] old(deref(t).b) != c ==> deref(t) == old(deref(t))
+//@   ensures [C07] old(deref(t).b) == c ==> deref(t).Parent == old(deref(t).Parent) && Bal(old(deref(t))) && Bal(old(deref(t).Children[Side(c)]))
+
+//@ -- removeFix(c, t): the subtree in slot t has root s whose child on the side opposite to c has just shrunk by one (so s now
+//@ -- leans relatively towards c); s's balance factor and ghost height still describe the state before. Afterwards the slot
+//@ -- holds a balanced root; the result says whether the subtree in the slot is one lower than before the removal.
+//@ pred ShrankStale(c, s) := 0 - 1 <= s.b && s.b <= 1 && s.h == 1 + max(Hc(s.Children[Side(c)]), Hc(s.Children[1 - Side(c)]) + 1)
+//@     && s.b == ite(c == 1, Hc(s.Children[1]) - (Hc(s.Children[0]) + 1), (Hc(s.Children[1]) + 1) - Hc(s.Children[0]))
+//@ func removeFix
+//@   requires Dir(c) && deref(t) != nil && ShrankStale(c, deref(t))
+//@   requires deref(t).b == c ==> deref(t).Children[Side(c)] != nil && Bal(deref(t).Children[Side(c)]) && RotDistinct(c, deref(t))
+//@   requires deref(t).b == c && deref(t).Children[Side(c)].b == 0 - c ==> deref(t).Children[Side(c)].Children[1 - Side(c)] != nil && Bal(deref(t).Children[Side(c)].Children[1 - Side(c)]) && DblDistinct(c, deref(t))
+//@   modifies deref(t)
+//@   modifies each x like deref(t) where x == old(deref(t)) || x == old(deref(t).Children[Side(c)]) || x == old(deref(t).Children[Side(c)].Children[1 - Side(c)]) || x == old(deref(t).Children[Side(c)].Children[1 - Side(c)].Children[0]) || x == old(deref(t).Children[Side(c)].Children[1 - Side(c)].Children[1]) : x.Children, x.Parent, x.b, x.h
+//@   at exit: if old(deref(t).b) == 0 - c then old(deref(t)).h := old(deref(t).h) - 1
+//@   at exit: if old(deref(t).b) == c && old(deref(t).Children[Side(c)].b) == 0 then old(deref(t)).h := 1 + max(Hc(old(deref(t)).Children[0]), Hc(old(deref(t)).Children[1]))
+//@   at exit: if old(deref(t).b) == c && old(deref(t).Children[Side(c)].b) == 0 then deref(t).h := 1 + max(Hc(deref(t).Children[0]), Hc(deref(t).Children[1]))
+//@   ensures [C07 C17] result == (old(deref(t).b) == 0 - c || (old(deref(t).b) == c && old(deref(t).Children[Side(c)].b) != 0))
+//@   ensures [C07] deref(t) != nil && Bal(deref(t)) && deref(t).h == old(deref(t).h) - ite(result, 1, 0)
+//@   ensures [C07] old(deref(t).b) != c ==> deref(t) == old(deref(t))
+//@   ensures [C07] old(deref(t).b) == c ==> deref(t).Parent == old(deref(t).Parent) && Bal(old(deref(t))) && Bal(old(deref(t).Children[Side(c)]))
